@@ -131,10 +131,12 @@ def instances(tier):
         out["Tagged"].append({"tags": [hz[j], hz[j + 1]], "n": j})
     out["Tagged"] += [{"tags": [], "n": 1}, {"tags": ["solo"], "n": 2}]
     out["Note"] += [{"note": None, "k": 1}, {"k": 2}]
-    # escape hazard x repair target, in both orders, as neighbouring fields and as neighbouring list elements
+    # escape hazard x repair target, in both orders, as neighbouring fields and as neighbouring list elements.  The
+    # values alternate (x | y x y | y) so that a target follows one hazard and follows two of them: a boundary error
+    # that a second hazard value cancels (quote parity) must not hide behind an even count.
     for i, (e, t) in enumerate(itertools.product(ESC, TGT)):
         for x, y in ((e, t), (t, e)):
-            out["Memo"].append({"a": x, "tags": [x, y], "b": y, "ok": i % 2 == 0, "opt": None})
+            out["Memo"].append({"a": x, "tags": [y, x, y], "b": y, "ok": i % 2 == 0, "opt": None})
     return out
 
 
